@@ -517,10 +517,7 @@ func (h *Hub) run() {
 			}
 			h.clients[client.topic][client] = true
 			h.mu.Unlock()
-			err := h.dcs.Add(client.bookingID, client.name, client.denied)
-			if err != nil {
-				log.WithFields(log.Fields{"error": err.Error(), "topic": client.topic, "booking_id": client.bookingID}).Warning("deny channel not added on client register")
-			}
+			// the deny channel is recorded by serveWs, before its deny check
 			verifhook.Point("hub.afterRegister", client.bookingID)
 		case client := <-h.unregister:
 			h.drop(client)
@@ -661,14 +658,6 @@ func serveWs(closed <-chan struct{}, w http.ResponseWriter, r *http.Request, con
 		return
 	}
 
-	verifhook.Point("ws.beforeDenyCheck", token.BookingID)
-	// we must check the booking is not denied here, else a user could request access, get a code, cancel booking, then use code to start a connection
-	if config.DenyStore.IsDenied(token.BookingID) {
-		log.WithFields(log.Fields{"topic": topic, "booking_id": token.BookingID}).Error("unauthorized because booking_id is deny listed")
-		return
-	}
-
-	verifhook.Point("ws.afterDenyCheck", token.BookingID)
 	// check permissions
 
 	var canRead, canWrite bool
@@ -689,6 +678,27 @@ func serveWs(closed <-chan struct{}, w http.ResponseWriter, r *http.Request, con
 
 	cancelled := make(chan struct{})
 	denied := make(chan struct{})
+	name := uuid.New().String()
+
+	// record the deny channel BEFORE checking the deny list: a deny request that
+	// lands after the check then finds the channel and closes this connection,
+	// while one that landed before it is seen by the check
+	err = config.Hub.dcs.Add(token.BookingID, name, denied)
+	if err != nil {
+		log.WithFields(log.Fields{"error": err.Error(), "topic": topic, "booking_id": token.BookingID}).Warning("deny channel not added for new connection")
+	}
+
+	verifhook.Point("ws.beforeDenyCheck", token.BookingID)
+	// we must check the booking is not denied here, else a user could request access, get a code, cancel booking, then use code to start a connection
+	if config.DenyStore.IsDenied(token.BookingID) {
+		log.WithFields(log.Fields{"topic": topic, "booking_id": token.BookingID}).Error("unauthorized because booking_id is deny listed")
+		err = config.Hub.dcs.DeleteChild(name)
+		if err != nil {
+			log.WithFields(log.Fields{"error": err.Error(), "topic": topic, "booking_id": token.BookingID}).Warning("deny channel not deleted for refused connection")
+		}
+		return
+	}
+	verifhook.Point("ws.afterDenyCheck", token.BookingID)
 
 	if ct == Session {
 		// initialise statistics
@@ -705,7 +715,7 @@ func serveWs(closed <-chan struct{}, w http.ResponseWriter, r *http.Request, con
 			send:       make(chan message, int(config.BufferSize)),
 			topic:      topic,
 			stats:      stats,
-			name:       uuid.New().String(),
+			name:       name,
 			userAgent:  r.UserAgent(),
 			remoteAddr: r.Header.Get("X-Forwarded-For"),
 			audience:   config.Audience,
